@@ -32,6 +32,14 @@ Proof.
   - destruct (dget k_data_id res); reflexivity.
 Qed.
 
+Lemma sm_extra_ok tbl : sm_ok enc_name (sm_of (SMextra tbl)).
+Proof.
+  intros i res H1 H2. cbn [sm_of]. refine (conj _ (conj _ _)).
+  - rewrite dget_dset_other by discriminate. exact H1.
+  - apply dget_dset_other. discriminate.
+  - rewrite dget_dset_other by discriminate. exact H2.
+Qed.
+
 (* the mapper that returns a new dict without data_id is not admissible *)
 Lemma sm_new_drop_not_ok tbl enc : ~ sm_ok enc (sm_of (SMnew tbl false)).
 Proof.
@@ -98,10 +106,13 @@ Definition ex_dd : dmapper :=
 Lemma ex_g_sibuniq : sibuniq_f ex_g.
 Proof. split; [cbn; nodup|su]. Qed.
 
-Lemma ex_g_inverse : Forall (allinfo (inverse_on (enc_of ex_tbl) ex_dd)) ex_g.
+Lemma ex_g_inverse : Forall (allinfo (inverse_on (sm_of (SMset ex_tbl)) ex_dd)) ex_g.
 Proof.
   apply allinfo_f_of_pre. intros t H. cbn in H.
-  repeat (destruct H as [<-|H]; [eexists; split; [reflexivity|repeat split]|]). destruct H.
+  repeat (destruct H as [<-|H];
+          [intros D Hown; unfold ex_dd, dd_raw; rewrite (Hown k_data k_data_neq_ch);
+           eexists; split; [reflexivity|repeat split]|]).
+  destruct H.
 Qed.
 
 (* the inverse-pair hypothesis is needed: a decoder that maps every value to
@@ -133,25 +144,26 @@ Lemma ex_drop_loses_ids :
 Proof. reflexivity. Qed.
 
 (* canonical dict lists: the four shapes of a canonical item *)
-Lemma canon_leaf dd s i : dd (Some (JStr s)) = inl i -> i_name i = s -> i_hash i <> (-1) ->
+Lemma canon_leaf dd s i : dd [(k_data, JStr s)] = inl i -> i_name i = s -> i_hash i <> (-1) ->
   canon dd (JDict [(k_data, JStr s)]).
 Proof. intros H1 H2 Hh. apply (canon_item dd s i [] [] H1 H2 Hh); now left. Qed.
 
-Lemma canon_id dd s i dv : dd (Some (JStr s)) = inl i -> i_name i = s -> i_hash i <> (-1) -> dv <> DInt (i_hash i) ->
+Lemma canon_id dd s i dv : dd [(k_data, JStr s); (k_data_id, jv_of_did dv)] = inl i -> i_name i = s -> i_hash i <> (-1) -> dv <> DInt (i_hash i) ->
   canon dd (JDict [(k_data, JStr s); (k_data_id, jv_of_did dv)]).
 Proof.
   intros H1 H2 Hh H3. apply (canon_item dd s i [(k_data_id, jv_of_did dv)] [] H1 H2 Hh); [right|now left].
   exists dv. split; [reflexivity|exact H3].
 Qed.
 
-Lemma canon_kids dd s i c cs : dd (Some (JStr s)) = inl i -> i_name i = s -> i_hash i <> (-1) -> Forall (canon dd) (c :: cs) ->
+Lemma canon_kids dd s i c cs : dd [(k_data, JStr s); (k_children, JList (c :: cs))] = inl i -> i_name i = s -> i_hash i <> (-1) -> Forall (canon dd) (c :: cs) ->
   canon dd (JDict [(k_data, JStr s); (k_children, JList (c :: cs))]).
 Proof.
   intros H1 H2 Hh H3. apply (canon_item dd s i [] [(k_children, JList (c :: cs))] H1 H2 Hh); [now left|right].
   exists c, cs. split; [reflexivity|exact H3].
 Qed.
 
-Lemma canon_full dd s i dv c cs : dd (Some (JStr s)) = inl i -> i_name i = s -> i_hash i <> (-1) -> dv <> DInt (i_hash i) ->
+Lemma canon_full dd s i dv c cs :
+  dd [(k_data, JStr s); (k_data_id, jv_of_did dv); (k_children, JList (c :: cs))] = inl i -> i_name i = s -> i_hash i <> (-1) -> dv <> DInt (i_hash i) ->
   Forall (canon dd) (c :: cs) ->
   canon dd (JDict [(k_data, JStr s); (k_data_id, jv_of_did dv); (k_children, JList (c :: cs))]).
 Proof.
